@@ -272,20 +272,22 @@ def c02_s(run, fx):
             if not p.endswith("VacantEntry::<'a, K, V>::insert") and not p.endswith("VacantEntry::<'a, K, V, A>::insert") and not (p.endswith("::insert") and "VacantEntry" in p):
                 continue
             n += 1
-            v = sym.strip(prov2.op(t["args"][1]))
             where = "%s: index stored in lookups_index" % fb.path
-            if v[0] == "c" and v[1] == 0:
-                run.ok(rule, "%s is the sentinel 0" % where)
-                continue
-            lens = [x for x in sym.walk(v) if x[0] == "call" and (x[4] or x[1] or "").endswith("::len")]
-            is_len = v[0] == "call" and (v[4] or v[1] or "").endswith("::len") and any(x[0] == "field" and x[2] == "cached_lookups" for x in sym.walk(v))
-            if is_len:
-                lb = v[3]
-                if any(fb.dominates(lb, pb) and fb.dominates(pb, bi) for pb in pushes):
-                    run.ok(rule, "%s is cached_lookups.len() read before the push of the new list" % where)
+            # the stored value may be the merge of several arms (`let i = match .. { .. => 0, .. => len }`): every value that can reach it is judged
+            for db, v in sym.alternatives(fb, prov2, prov2.op(t["args"][1])):
+                v = sym.strip(v)
+                use_b = bi if db is None else db
+                if v[0] == "c" and v[1] == 0:
+                    run.ok(rule, "%s is the sentinel 0" % where)
                     continue
-            run.fail(rule, "lookups-index-value:%s" % fb.root, "%s is %s: not the sentinel 0 and not cached_lookups.len() taken before the push "
-                     "that dominates the insert - the two collections fall out of step" % (where, sym.show(v)[:100]), fb.loc(t))
+                is_len = v[0] == "call" and (v[4] or v[1] or "").endswith("::len") and any(x[0] == "field" and x[2] == "cached_lookups" for x in sym.walk(v))
+                if is_len:
+                    lb = v[3]
+                    if any(fb.dominates(lb, pb) and fb.dominates(pb, use_b) for pb in pushes):
+                        run.ok(rule, "%s is cached_lookups.len() read before the push of the new list" % where)
+                        continue
+                run.fail(rule, "lookups-index-value:%s" % fb.root, "%s is %s: not the sentinel 0 and not cached_lookups.len() taken before the push "
+                         "that dominates the insert - the two collections fall out of step" % (where, sym.show(v)[:100]), fb.loc(t))
     if n == 0 and fx.body("gsub::get_lookups_cache_index") is not None:
         run.anchor_missing(rule, "VacantEntry::insert in get_lookups_cache_index")
 
